@@ -34,7 +34,10 @@ Definition ident_ok (s : list Z) : bool :=
 (* hclsyntax.ValidIdentifier(s): scanTokens(s, scanIdentOnly) yields [Ident; EOF].  scanTokens
    first strips a UTF-8 byte order mark, so a name that is BOM + identifier is "valid". *)
 Definition strip_bom (s : list Z) : list Z :=
-  match s with 239 :: 187 :: 191 :: r => r | _ => s end.
+  match s with
+  | a :: b :: c :: r => if (a =? 239) && (b =? 187) && (c =? 191) then r else s
+  | _ => s
+  end.
 Definition valid_identifier (s : list Z) : bool := ident_ok (strip_bom s).
 
 (* ---- TypeString (public.go) ---------------------------------------------------------------- *)
@@ -159,7 +162,7 @@ Definition TE_KeyNotName := 10.       (* Object constructor map keys must be att
 Definition TE_KeyDup := 11.           (* Object constructor map keys must be unique *)
 Definition TE_OptNeedsArg := 12.      (* Optional attribute modifier requires the attribute type *)
 Definition TE_OptOneArg := 14.        (* Optional attribute modifier expects only one argument *)
-Definition TE_OptOnlyConstraint := 15.(* Optional attribute modifier is only for type constraints *)
+Definition TE_OptOnlyConstraint := 15. (* Optional attribute modifier is only for type constraints *)
 Definition TE_TupleNeedsList := 16.   (* Tuple type constructor requires a list of element types *)
 Definition TE_OptModifier := 17.      (* Keyword "optional" is valid only as a modifier *)
 Definition TE_BadCtor := 18.          (* Keyword %q is not a valid type constructor *)
@@ -173,6 +176,39 @@ Definition tok_ (t : ty) : tres := mkTres t [] false.
 Definition terr (id : Z) : tres := mkTres TDyn [id] false.
 
 Definition name_in (n : list Z) (l : list (list Z)) : bool := existsb (str_eqb n) l.
+
+(* the body of the loop over the attribute definitions of object({...}); rec = getType on
+   the attribute's type expression.  state: atys (sorted by name), diagnostics, optional seen *)
+Definition tobj_step (rec : expr -> tres) (constraint : bool)
+  (st : list (list Z * ty) * list Z * bool) (def : expr * expr) : list (list Z * ty) * list Z * bool :=
+  let '(atys, ds, opt) := st in
+  let attr_name := expr_as_keyword (fst def) in
+  if str_eqb attr_name [] then (atys, ds ++ [TE_KeyNotName], opt)
+  else if match assoc_get attr_name atys with Some _ => true | None => false end
+  then (atys, ds ++ [TE_KeyDup], opt)
+  else
+  (* optional(...) modifier: inl = skip this attribute (`continue`) *)
+  let unwrapped : (list Z * bool) + (expr * list Z * bool) :=
+    match expr_call (snd def) with
+    | Some (cname, cargs) =>
+        if str_eqb cname n_optional then
+          match cargs with
+          | [] => inl (ds ++ [TE_OptNeedsArg], opt)
+          | a0 :: _ =>
+              if constraint then
+                (if Nat.eqb (length cargs) 1 then inr (a0, ds, true)
+                 else inr (a0, ds ++ [TE_OptOneArg], opt))
+              else inr (a0, ds ++ [TE_OptOnlyConstraint], opt)
+          end
+        else inr (snd def, ds, opt)
+    | None => inr (snd def, ds, opt)
+    end in
+  match unwrapped with
+  | inl (ds', opt') => (atys, ds', opt')
+  | inr (aty_expr, ds', opt') =>
+      let r := rec aty_expr in
+      (assoc_set attr_name (t_ty r) atys, ds' ++ t_diags r, opt' || t_opt r)
+  end.
 
 (* getType(expr, constraint, withDefaults = false) *)
 Fixpoint get_type_f (fuel : nat) (constraint : bool) (e : expr) {struct fuel} : tres :=
@@ -211,37 +247,7 @@ Fixpoint get_type_f (fuel : nat) (constraint : bool) (e : expr) {struct fuel} : 
         match expr_map arg0 with
         | None => terr TE_ObjNeedsMap
         | Some attr_defs =>
-            (* state: atys (sorted by name), diagnostics, optional seen *)
-            let step (st : list (list Z * ty) * list Z * bool) (def : expr * expr) :=
-              let '(atys, ds, opt) := st in
-              let attr_name := expr_as_keyword (fst def) in
-              if str_eqb attr_name [] then (atys, ds ++ [TE_KeyNotName], opt)
-              else if match assoc_get attr_name atys with Some _ => true | None => false end
-              then (atys, ds ++ [TE_KeyDup], opt)
-              else
-              (* optional(...) modifier: inl = skip this attribute (`continue`) *)
-              let unwrapped : (list Z * bool) + (expr * list Z * bool) :=
-                match expr_call (snd def) with
-                | Some (cname, cargs) =>
-                    if str_eqb cname n_optional then
-                      match cargs with
-                      | [] => inl (ds ++ [TE_OptNeedsArg], opt)
-                      | a0 :: _ =>
-                          if constraint then
-                            (if Nat.eqb (length cargs) 1 then inr (a0, ds, true)
-                             else inr (a0, ds ++ [TE_OptOneArg], opt))
-                          else inr (a0, ds ++ [TE_OptOnlyConstraint], opt)
-                      end
-                    else inr (snd def, ds, opt)
-                | None => inr (snd def, ds, opt)
-                end in
-              match unwrapped with
-              | inl (ds', opt') => (atys, ds', opt')
-              | inr (aty_expr, ds', opt') =>
-                  let r := get_type_f f constraint aty_expr in
-                  (assoc_set attr_name (t_ty r) atys, ds' ++ t_diags r, opt' || t_opt r)
-              end in
-            let '(atys, ds, opt) := fold_left step attr_defs ([], [], false) in
+            let '(atys, ds, opt) := fold_left (tobj_step (get_type_f f constraint) constraint) attr_defs ([], [], false) in
             mkTres (TObj atys) ds opt
         end
       else if str_eqb name n_tuple then
